@@ -32,10 +32,10 @@ const (
 	OpShl
 	OpLShr
 	OpAShr
-	OpZExt  // val = extra bits
-	OpSExt  // val = extra bits
-	OpExtr  // val = hi<<8 | lo
-	OpIte   // args: cond(bool), a, b (bv or bool)
+	OpZExt // val = extra bits
+	OpSExt // val = extra bits
+	OpExtr // val = hi<<8 | lo
+	OpIte  // args: cond(bool), a, b (bv or bool)
 	OpConcat
 	// -> bool
 	OpEq
@@ -63,7 +63,7 @@ type Term struct {
 	args   []*Term
 	val    uint64
 	name   string
-	lo, hi uint64 // unsigned interval (bit-vectors only)
+	lo, hi uint64   // unsigned interval (bit-vectors only)
 	atom   *decAtom // non-nil for digit variables of a decimal atom
 }
 
@@ -82,10 +82,10 @@ type termKey struct {
 // Store owns all terms of one worker.
 type Store struct {
 	ranged map[string]*Term
-	tab   map[termKey]*Term
-	terms []*Term
-	tt    *Term
-	ff    *Term
+	tab    map[termKey]*Term
+	terms  []*Term
+	tt     *Term
+	ff     *Term
 }
 
 func NewStore() *Store {
